@@ -1,5 +1,6 @@
 mod common;
 mod c01;
+mod c02;
 
 fn main() {
     std::panic::set_hook(Box::new(|_| {}));
@@ -15,6 +16,8 @@ fn main() {
         "c08-replay" => c01::c08_replay(rest),
         "c08-malformed" => c01::c08_malformed(rest),
         "c08-record" => c01::c08_record(rest),
+        "c02-replay" => c02::replay(rest),
+        "c02-record" => c02::record(rest),
         x => {
             eprintln!("unknown subcommand {}", x);
             std::process::exit(2);
